@@ -57,7 +57,7 @@ func decode(b []byte) any {
 	return v
 }
 
-var hostile = enum.Options{Hostile: true}
+var hostile = enum.Options{Hostile: true, ExtremeInts: true}
 
 // rawVariants sweeps truncations and duplicated members of a JSON text.
 func rawVariants(s *crash.Sweep, entryName, inst string, text []byte, store bool, run func(raw []byte) func() string) {
@@ -81,10 +81,13 @@ func rawVariants(s *crash.Sweep, entryName, inst string, text []byte, store bool
 }
 
 func TestVerifC19(t *testing.T) {
+	if crash.Supervise(t) {
+		return // this process supervised a child that ran the sweep
+	}
 	logrus.SetOutput(io.Discard)
 	logrus.SetLevel(logrus.PanicLevel)
 	r := ev.Start(t, "C19")
-	defer r.Finish()
+	defer func() { r.Finish(); crash.MarkDone() }()
 	s := crash.NewSweep(r, "C19")
 	r.Rule("for each entry point: 2-5 valid instances x every single application of the enum operator alphabet (delete, rename, 14 replacement values incl. null/extremes/{\"@base\":5}, wrap/unwrap, add undefined member, array reorder/dup/append, string edits + hostile strings, number perturbations) at every JSON position, plus truncation at every token boundary, duplicated members, JOSE serialisation variants and raw compact oddities; thorough: every pair of single mutations (second from the alphabet without the hostile strings). A case is distinct by (entry point, instance, operator@path); the call is made the way the node makes it and judged by recover() + a 10 s per-call deadline (reported only if reproduced 3x); rejected input must leave the store unchanged where there is one")
 	r.Assume("go runtime, encoding/json, protobuf and the jwx / go-did libraries are exercised, not modelled; resource exhaustion that terminates is outside the statement")
@@ -121,4 +124,6 @@ func TestVerifC19(t *testing.T) {
 	}
 }
 
-func enumNoBig() enum.Options { return enum.Options{Hostile: true, NoBigString: true} }
+func enumNoBig() enum.Options {
+	return enum.Options{Hostile: true, NoBigString: true, ExtremeInts: true}
+}
